@@ -1,4 +1,224 @@
+(* C24 - Public-input parsers are total, exact and mutually consistent.
+
+   Model: Sys/Parsers.v (hand-written after wormhole/inputs/src/lib.rs and wormhole/circuit/src/inputs.rs,
+   tied to the implementation by the differential run of harness/src/bin/parsers.rs).
+   Proofs: Sys/ParsersProofs.v.  Vocabulary used in the statements (all defined in ParsersProofs.v, independent of the
+   parsers):
+     at_ l i            = nth i l 0                       sub l a n = firstn n (skipn a l)
+     u32_at l i         = 0 <= at_ l i < 2^32             digest_at l a = the 4 limbs at a..a+3 are < p
+     slots_wf l c k     = k records of 5 felts from c: a u32 sum followed by a digest
+     digests_wf l c k   = k digests of 4 felts from c
+     slots_at/digests_at= the records read positionally (slots_at_nth, digests_at_nth give the index form)
+     wf_leaf / wf_priv n / wf_pub m n   the well-formed layouts;  layout_*  the structure at the documented offsets
+     valid_leaf / valid_priv n / valid_pub m n   valid structures;  res_class = Ok value | "an error" *)
 From V.Base Require Import Common.
-From V.Sys Require Import Parsers.
-Theorem C24_placeholder : forall x : Z, x = x.
+From V.Generated Require Import Constants.
+From V.Sys Require Import Parsers ParsersProofs.
+
+Local Open Scope Z_scope.
+
+(* ---------------------------------------------------------------- constants of the property text, pinned to /repo *)
+Lemma C24_pin_leaf_len : LEAF_PI_LEN = 21. Proof. reflexivity. Qed.
+Lemma C24_pin_max_proof_count : MAX_PROOF_COUNT = 64. Proof. reflexivity. Qed.
+Lemma C24_pin_public_header_len : PUBLIC_HEADER_LEN = 12. Proof. reflexivity. Qed.
+Lemma C24_pin_public_exit_slot_len : PUBLIC_EXIT_SLOT_LEN = 5. Proof. reflexivity. Qed.
+Lemma C24_pin_public_address_len : PUBLIC_AGGREGATOR_ADDRESS_LEN = 4. Proof. reflexivity. Qed.
+Lemma C24_pin_inputs_order : INPUTS_GOLDILOCKS_ORDER = p. Proof. reflexivity. Qed.
+Lemma C24_pin_field_order : FIELD_ORDER = p. Proof. reflexivity. Qed.
+Lemma C24_pin_p : p = 2 ^ 64 - 2 ^ 32 + 1. Proof. reflexivity. Qed.
+Lemma C24_pin_two32 : two32 = 2 ^ 32 /\ two64 = 2 ^ 64. Proof. split; reflexivity. Qed.
+Lemma C24_pin_leaf_offsets :
+  [IDX_ASSET_ID; IDX_OUTPUT_AMOUNT_1; IDX_OUTPUT_AMOUNT_2; IDX_VOLUME_FEE_BPS;
+   IDX_NULLIFIER_START; IDX_NULLIFIER_END; IDX_EXIT_1_START; IDX_EXIT_1_END;
+   IDX_EXIT_2_START; IDX_EXIT_2_END; IDX_BLOCK_HASH_START; IDX_BLOCK_HASH_END; IDX_BLOCK_NUMBER]
+  = [0; 1; 2; 3; 4; 8; 8; 12; 12; 16; 16; 20; 20].
 Proof. reflexivity. Qed.
+
+(* ---------------------------------------------------------------- the specification, spelled out *)
+(* (these lemmas only re-state the definitions used below, so that the file can be read on its own) *)
+Lemma C24_spec_wf_leaf pis :
+  wf_leaf pis <->
+  length pis = 21%nat /\
+  u32_at pis 0 /\ u32_at pis 1 /\ u32_at pis 2 /\ u32_at pis 3 /\
+  digest_at pis 4 /\ digest_at pis 8 /\ digest_at pis 12 /\ digest_at pis 16 /\ u32_at pis 20.
+Proof. reflexivity. Qed.
+Lemma C24_spec_wf_priv n pis :
+  wf_priv n pis <->
+  (1 <= n <= 64)%nat /\ length pis = (8 + 21 * n)%nat /\
+  at_ pis 0 = Z.of_nat (2 * n) /\ u32_at pis 1 /\ u32_at pis 2 /\ digest_at pis 3 /\ u32_at pis 7 /\
+  slots_wf pis 8 (2 * n) /\ digests_wf pis (8 + 10 * n) n.
+Proof. reflexivity. Qed.
+Lemma C24_spec_wf_pub m n pis :
+  wf_pub m n pis <->
+  length pis = (12 + 14 * (m * n))%nat /\
+  digest_at pis 0 /\ u32_at pis 4 /\ u32_at pis 5 /\ digest_at pis 6 /\ u32_at pis 10 /\
+  at_ pis 11 = Z.of_nat (2 * (m * n)) /\
+  slots_wf pis 12 (2 * (m * n)) /\ digests_wf pis (12 + 10 * (m * n)) (m * n).
+Proof. reflexivity. Qed.
+Lemma C24_spec_regions l cur count :
+  (slots_wf l cur count <->
+   forall j, (j < count)%nat -> (0 <= at_ l (cur + 5 * j) < two32) /\
+                                 (forall k, (k < 4)%nat -> 0 <= at_ l (cur + 5 * j + 1 + k) < p)) /\
+  (digests_wf l cur count <->
+   forall j, (j < count)%nat -> forall k, (k < 4)%nat -> 0 <= at_ l (cur + 4 * j + k) < p) /\
+  (forall j d, (j < count)%nat ->
+     nth j (slots_at l cur count) d = mkSlot (at_ l (cur + 5 * j)) (sub l (cur + 5 * j + 1) 4)) /\
+  (forall j d, (j < count)%nat -> nth j (digests_at l cur count) d = sub l (cur + 4 * j) 4) /\
+  length (slots_at l cur count) = count /\ length (digests_at l cur count) = count.
+Proof.
+  split; [reflexivity|]. split; [reflexivity|].
+  split; [intros; apply slots_at_nth; assumption|].
+  split; [intros; apply digests_at_nth; assumption|].
+  split; [apply slots_at_length|apply digests_at_length].
+Qed.
+
+(* ---------------------------------------------------------------- totality *)
+Theorem C24_total :
+  (forall pis, Forall (fun x => 0 <= x < two64) pis -> parse_leaf_u64 pis <> Err PANIC) /\
+  (forall raw, Forall (fun x => 0 <= x < two64) raw -> parse_leaf_felts raw <> Err PANIC) /\
+  (forall pis, Forall (fun x => 0 <= x < two64) pis -> parse_priv_u64 pis <> Err PANIC) /\
+  (forall raw, Forall (fun x => 0 <= x < two64) raw -> parse_priv_felts raw <> Err PANIC) /\
+  (forall pis m n, Forall (fun x => 0 <= x < two64) pis -> 0 <= m < two64 -> 0 <= n < two64 ->
+                   parse_pub_u64 pis m n <> Err PANIC).
+Proof. exact parsers_total. Qed.
+
+(* ---------------------------------------------------------------- exact acceptance sets *)
+Theorem C24_leaf_accept_iff : forall pis s,
+  parse_leaf_u64 pis = Ok s <-> wf_leaf pis /\ s = layout_leaf pis.
+Proof. exact leaf_accept_iff. Qed.
+
+Theorem C24_private_accept_iff : forall pis s,
+  parse_priv_u64 pis = Ok s <-> exists n, wf_priv n pis /\ s = layout_priv n pis.
+Proof. exact priv_accept_iff. Qed.
+
+Theorem C24_public_accept_iff : forall pis m n s,
+  0 <= m < two64 -> 0 <= n < two64 ->
+  (parse_pub_u64 pis m n = Ok s <->
+   1 <= m <= 64 /\ 1 <= n <= 64 /\
+   wf_pub (Z.to_nat m) (Z.to_nat n) pis /\ s = layout_pub (Z.to_nat m) (Z.to_nat n) pis).
+Proof. exact pub_accept_iff. Qed.
+
+(* the felt-based parsers accept exactly the same set, read on the canonical values of the felts *)
+Theorem C24_leaf_felts_accept_iff : forall raw s,
+  Forall (fun x => 0 <= x < two64) raw ->
+  (parse_leaf_felts raw = Ok s <-> wf_leaf (map to_canonical raw) /\ s = layout_leaf (map to_canonical raw)).
+Proof. intros raw s F. apply leaf_canon_accept_iff. apply map_to_canonical_canon. exact F. Qed.
+
+Theorem C24_private_felts_accept_iff : forall raw s,
+  Forall (fun x => 0 <= x < two64) raw ->
+  (parse_priv_felts raw = Ok s <->
+   exists n, wf_priv n (map to_canonical raw) /\ s = layout_priv n (map to_canonical raw)).
+Proof. intros raw s F. apply priv_canon_accept_iff. apply map_to_canonical_canon. exact F. Qed.
+
+(* ---------------------------------------------------------------- round trips *)
+Theorem C24_roundtrip_leaf : forall s, valid_leaf s -> parse_leaf_u64 (serialize_leaf s) = Ok s.
+Proof. exact leaf_roundtrip. Qed.
+
+Theorem C24_roundtrip_private : forall n s padding,
+  valid_priv n s -> length padding = (7 * n)%nat -> parse_priv_u64 (serialize_priv s padding) = Ok s.
+Proof. exact priv_roundtrip. Qed.
+
+Theorem C24_roundtrip_public : forall m n s,
+  valid_pub m n s -> parse_pub_u64 (serialize_pub s) (Z.of_nat m) (Z.of_nat n) = Ok s.
+Proof. exact pub_roundtrip. Qed.
+
+(* ---------------------------------------------------------------- the u64 and the felt parsers agree *)
+(* Equality is by result class (the value when accepted, "an error" otherwise): the two parsers run
+   their checks in different orders, so on an input with two defects they report different errors.
+   The hypothesis is the representation invariant of GoldilocksField (its inner value is a u64). *)
+Theorem C24_private_parsers_agree : forall raw,
+  Forall (fun x => 0 <= x < two64) raw ->
+  res_class (parse_priv_felts raw) = res_class (parse_priv_u64 (map to_canonical raw)).
+Proof. exact priv_parsers_agree. Qed.
+
+Theorem C24_leaf_parsers_agree : forall raw,
+  Forall (fun x => 0 <= x < two64) raw ->
+  res_class (parse_leaf_felts raw) = res_class (parse_leaf_u64 (map to_canonical raw)).
+Proof. exact leaf_parsers_agree. Qed.
+
+(* without the canonicalisation the parsers do differ: a raw limb >= p is an error for the u64 parser
+   and a valid (reduced) limb for the felt parser - which is why the statement above maps to_canonical *)
+Example C24_agree_needs_canonical :
+  exists raw, Forall (fun x => 0 <= x < two64) raw /\
+              res_class (parse_leaf_felts raw) <> res_class (parse_leaf_u64 raw).
+Proof.
+  exists (repeat 0 4 ++ [p] ++ repeat 0 16). split.
+  - repeat constructor; unfold two64, p; lia.
+  - vm_compute. discriminate.
+Qed.
+
+(* ---------------------------------------------------------------- non-vacuity *)
+Example C24_ex_leaf_vector : list Z :=
+  [7; 100; 4294967295; 10000;  1; 2; 3; p - 1;  5; 6; 7; 8;  0; 0; 0; 0;  9; 10; 11; 12;  42].
+Example C24_ex_leaf_accepted :
+  is_ok (parse_leaf_u64 C24_ex_leaf_vector) = true /\ is_ok (parse_leaf_felts C24_ex_leaf_vector) = true /\
+  wf_leaf C24_ex_leaf_vector.
+Proof.
+  split; [vm_compute; reflexivity|]. split; [vm_compute; reflexivity|].
+  apply (proj1 (leaf_accept_iff C24_ex_leaf_vector (layout_leaf C24_ex_leaf_vector))). vm_compute. reflexivity.
+Qed.
+
+(* n = 2: 8 header felts, 4 slots, 2 nullifiers, 14 felts of (arbitrary, here huge) padding *)
+Example C24_ex_priv_vector : list Z :=
+  [4; 0; 25; 1; 2; 3; 4; 77] ++
+  [10; 1; 1; 1; 1] ++ [20; 2; 2; 2; 2] ++ [0; 0; 0; 0; 0] ++ [4294967295; p - 1; 0; 0; 0] ++
+  [11; 12; 13; 14] ++ [21; 22; 23; 24] ++ repeat (two64 - 1) 14.
+Example C24_ex_priv_accepted :
+  is_ok (parse_priv_u64 C24_ex_priv_vector) = true /\ wf_priv 2 C24_ex_priv_vector /\
+  parse_priv_u64 C24_ex_priv_vector = Ok (layout_priv 2 C24_ex_priv_vector).
+Proof.
+  assert (parse_priv_u64 C24_ex_priv_vector = Ok (layout_priv 2 C24_ex_priv_vector)) as E by (vm_compute; reflexivity).
+  split; [rewrite E; reflexivity|]. split; [|exact E].
+  destruct (proj1 (priv_accept_iff _ _) E) as (n & W & _).
+  assert (length C24_ex_priv_vector = 50%nat) as L50 by reflexivity.
+  assert (n = 2%nat) as -> by (destruct W as (_ & L & _); lia). exact W.
+Qed.
+(* the felt parser on the same vector: the non-canonical padding is reduced, the result is the same *)
+Example C24_ex_priv_felts_accepted :
+  parse_priv_felts C24_ex_priv_vector = parse_priv_u64 C24_ex_priv_vector.
+Proof. vm_compute. reflexivity. Qed.
+
+(* m = 2, n = 1: 12 header felts, 4 slots, 2 nullifiers *)
+Example C24_ex_pub_vector : list Z :=
+  [1; 2; 3; 4;  0; 25;  5; 6; 7; 8;  99; 4] ++
+  [10; 1; 1; 1; 1] ++ [20; 2; 2; 2; 2] ++ [0; 0; 0; 0; 0] ++ [30; 3; 3; 3; p - 1] ++
+  [11; 12; 13; 14] ++ [21; 22; 23; 24].
+Example C24_ex_pub_accepted :
+  parse_pub_u64 C24_ex_pub_vector 2 1 = Ok (layout_pub 2 1 C24_ex_pub_vector) /\ wf_pub 2 1 C24_ex_pub_vector.
+Proof.
+  assert (parse_pub_u64 C24_ex_pub_vector 2 1 = Ok (layout_pub 2 1 C24_ex_pub_vector)) as E by (vm_compute; reflexivity).
+  split; [exact E|].
+  apply (pub_accept_iff C24_ex_pub_vector 2 1) in E; [|unfold two64; lia|unfold two64; lia].
+  destruct E as (_ & _ & W & _). exact W.
+Qed.
+
+(* valid structures exist (hypotheses of the round-trip theorems are satisfiable), and rejection happens *)
+Ltac ex_valid :=
+  repeat match goal with
+         | |- _ /\ _ => split
+         | |- Forall _ _ => constructor
+         | |- digestP _ => split
+         | |- valid_slot _ => split
+         end;
+  cbn [s_sum s_account];
+  first [reflexivity | lia | (unfold is_u32P, canonP, p, two32; lia)].
+Example C24_ex_valid_structures :
+  valid_leaf (layout_leaf C24_ex_leaf_vector) /\ valid_priv 2 (layout_priv 2 C24_ex_priv_vector) /\
+  valid_pub 2 1 (layout_pub 2 1 C24_ex_pub_vector).
+Proof.
+  let t := eval vm_compute in (layout_leaf C24_ex_leaf_vector) in change (layout_leaf C24_ex_leaf_vector) with t.
+  let t := eval vm_compute in (layout_priv 2 C24_ex_priv_vector) in change (layout_priv 2 C24_ex_priv_vector) with t.
+  let t := eval vm_compute in (layout_pub 2 1 C24_ex_pub_vector) in change (layout_pub 2 1 C24_ex_pub_vector) with t.
+  unfold valid_leaf, valid_priv, valid_pub.
+  cbn [l_asset l_out1 l_out2 l_fee l_null l_exit1 l_exit2 l_bh l_bn
+       pb_num_exit_slots pb_asset pb_fee pb_bh pb_bn pb_slots pb_nulls
+       pu_addr pu_asset pu_fee pu_bh pu_bn pu_total pu_slots pu_nulls].
+  ex_valid.
+Qed.
+Example C24_ex_rejections :
+  res_class (parse_leaf_u64 (repeat 0 20)) = None /\
+  res_class (parse_priv_u64 (1 :: repeat 0 28)) = None /\          (* pis[0] <> 2n *)
+  res_class (parse_priv_u64 (repeat 0 (8 + 21 * 65))) = None /\   (* 65 leaves *)
+  res_class (parse_pub_u64 C24_ex_pub_vector 65 1) = None /\
+  res_class (parse_pub_u64 C24_ex_pub_vector 0 1) = None.
+Proof. vm_compute. repeat split; reflexivity. Qed.
